@@ -10,6 +10,7 @@ import (
 	"go/token"
 	"go/types"
 	"math/big"
+	"os"
 	"path/filepath"
 	"sort"
 	"strings"
@@ -53,6 +54,7 @@ type FnExec struct {
 	epochs       int
 	ranged       map[int]bool
 	rangedSl     map[int]bool
+	entryRefDone map[string]bool
 	heapSorts    map[string]Sort
 	writeLog     map[string]bool
 	cellLog      map[ssa.Value]bool
@@ -257,6 +259,9 @@ func (fr *Frame) analyse() {
 		if fr.contract != nil {
 			li.spec = fr.contract.Loops[li.ordinal]
 		}
+		if os.Getenv("VERIF_LOOPS") != "" {
+			fmt.Fprintf(os.Stderr, "loop-ordinal: %s loop %d = block %d (%s) line %d\n", fr.fn.Name(), li.ordinal, li.header.Index, li.header.Comment, fr.x.E.prog.Fset.Position(minPos(li)).Line)
+		}
 	}
 }
 
@@ -374,6 +379,18 @@ func (x *FnExec) inputFacts(st *State, v Value, t types.Type) {
 		u := t.Underlying().(*types.Struct)
 		for i, f := range vv.fields {
 			x.inputFacts(st, f, u.Field(i).Type())
+		}
+	}
+}
+
+// wellFormedSlices: every slice header inside v satisfies 0 <= off, 0 <= len <= cap (a stored Go value).
+func (x *FnExec) wellFormedSlices(v Value) {
+	switch vv := v.(type) {
+	case *SliceV:
+		x.sliceFacts(vv)
+	case *StructV:
+		for _, f := range vv.fields {
+			x.wellFormedSlices(f)
 		}
 	}
 }
@@ -1730,6 +1747,7 @@ func (x *FnExec) mapLookup(fr *Frame, v *ssa.Lookup, st *State, g *Term) Value {
 	val := x.mapValHeapRead(st, mt, m, k)
 	// a stored map value is a well-formed value of its type (slice headers in range, references allocated)
 	x.inputFacts(st, val, mt.Elem())
+	x.wellFormedSlices(val)
 	zero := x.zeroVal(mt.Elem())
 	res := x.iteVal(in, val, zero)
 	if v.CommaOk {
